@@ -74,6 +74,7 @@ let table : (str * (z list -> z)) list = [
   ("climat", judge_climat);
   ("cligraph", judge_cligraph);
   ("climatd", judge_climatd);
+  ("cligraphout", judge_cligraphout);
   ("leaf", judge_leaf);
   ("cliverdict", judge_cliverdict);
 ]
